@@ -4,7 +4,7 @@ import numpy as np
 LEAF = {
     'u': 'u', 'v': 'v', 'ux': 'Dx(u,0)', 'uy': 'Dx(u,1)', 'vx': 'Dx(v,0)', 'vy': 'Dx(v,1)',
     'uxp': 'Dx(u,0,parametric=True)', 'vyp': 'Dx(v,1,parametric=True)', 'uxx': 'Dx(u,0,2)', 'uxy': 'Dx(Dx(u,0),1)',
-    'c': 'c', 'two': '2', 'three': '3', 'half': '0.5', 'hpar': 'h', 'hx': 'Dx(h,0)', 'gw': 'gw',
+    'c': 'c', 'two': '2', 'three': '3', 'half': '0.5', 'tiny': '7.450580596923828125e-09', 'near1': '1.000003814697265625', 'hpar': 'h', 'hx': 'Dx(h,0)', 'gw': 'gw',
     'f': 'f', 'f2': 'f2', 'cD': 'c', 'twoD': '2',
     'gu': 'grad(u)', 'gv': 'grad(v)', 'gup': 'grad(u,parametric=True)', 'gh': 'grad(h)', 'g': 'g', 'x': 'x',
     'uvec': 'u', 'vvec': 'v', 'u0': 'u[0]', 'u1': 'u[1]', 'w0': 'v[0]', 'w1': 'v[1]', 'divu': 'div(u)', 'divv': 'div(v)',
